@@ -2,8 +2,8 @@
 
 (hist) every history of receivers (length <= bound) arriving at one property-read,
 property-write, invoke, get-then-call and super-invoke site, over the alphabet
-{A, B (same names, other slots), C:A, C2:C, D (field shadows method), number,
-string, list, fresh instance of a class created by the previous call and dropped,
+{A, B (same names, other slots), C:A, C2:C, D (field shadows method), classes made by a
+factory with a run-time super class (single and stacked), number, string, list, fresh instance of a class created by the previous call and dropped,
 forced full collection}; each history runs with caches on and with every lookup
 forced to the slow path (hook H4).
 Oracle: both runs print the same, and each step prints what that receiver prints
@@ -22,6 +22,7 @@ class C2 : C { init() { self.j = 'C2j'; super.init(); } }
 class D { init() { self.f = 'Df'; self.m = || 'Dfield'; self.m1 = |x| 'Dfield1'; } }
 fn mk1() { class T { init() { self.f = 'T1f'; self.g = 'T1g'; } m() { return 'T1m'; } m1(x) { return 'T1m1'; } } return T(); }
 fn mk2() { class T { init() { self.g = 'T2g'; self.f = 'T2f'; } m() { return 'T2m'; } m1(x) { return 'T2m1'; } } return T(); }
+fn mixin(Base) { class T : Base { m() { return 'T>' + super.m(); } m1(x) { return 'T1>' + super.m1(x); } } return T; }
 fn read(o) { return o.f; }
 fn write(o) { o.f = 'W'; return o.f; }
 fn inv(o) { return o.m(); }
@@ -40,8 +41,10 @@ fn step(o) {
 """
 RECV = {"A": "step(A());", "B": "step(B());", "C": "step(C());", "C2": "step(C2());", "D": "step(D());",
         "N": "step(5);", "S": "step('s');", "L": "step([1]);", "T1": "step(mk1());", "T2": "step(mk2());",
-        "GC": "print('@@gc full'); let pad%d = [0];"}
-ALPHA = ["A", "B", "C", "C2", "D", "N", "T1", "T2", "GC", "S", "L"]
+        "GC": "print('@@gc full'); let pad%d = [0];",
+        # classes made by a factory with a run-time super class: one super-invoke site sees several super classes, twice for one receiver when stacked
+        "FA": "step(mixin(A)());", "FB": "step(mixin(B)());", "FFA": "step(mixin(mixin(A))());", "FFB": "step(mixin(mixin(B))());"}
+ALPHA = ["A", "B", "C", "C2", "D", "N", "T1", "T2", "GC", "FA", "FFA", "FFB", "FB", "S", "L"]
 
 
 def prog(hist):
@@ -57,7 +60,7 @@ def prog(hist):
 class C13(Check):
     id = "C13"
     level = "exploration"
-    rule = ("(hist) all receiver histories of length 1..L (L=4 quick, 6 thorough) over an 11 symbol alphabet, each run with caches "
+    rule = ("(hist) all receiver histories of length 1..L (L=4 quick, 6 thorough) over a 15 symbol alphabet (13 for length 4, 11 beyond), each run with caches "
             "on and with hook H4 forcing every lookup to miss; oracle: equal output, and every step equals the output of that "
             "receiver at a fresh site; (corpus) every corpus program on/off. non-trivial = history with >= 2 different receiver "
             "classes at the site (or a corpus program containing a property/invoke site)")
@@ -71,7 +74,7 @@ class C13(Check):
     def gen(self, tier):
         L = 6 if tier == "thorough" else 4
         for n in range(1, L + 1):
-            alpha = ALPHA if n <= 4 else ALPHA[:9]
+            alpha = ALPHA if n <= 3 else (ALPHA[:13] if n == 4 else ALPHA[:11])
             for h in itertools.product(alpha, repeat=n):
                 yield ("hist", h)
         for i in range(len(self.progs)):
